@@ -271,11 +271,21 @@ func (s *Scope) Decorate(decorator interface{}, opts ...DecorateOption) error {
 	if err != nil {
 		return err
 	}
+	// Validate every key before registering the decorator for any of them, so
+	// that a rejected decorator leaves nothing behind.
+	seen := make(map[key]struct{}, len(keys))
 	for _, k := range keys {
 		if _, ok := s.decorators[k]; ok {
 			return newErrInvalidInput(
 				fmt.Sprintf("cannot decorate using function %v: %s already decorated", dn.dtype, k), nil)
 		}
+		if _, ok := seen[k]; ok {
+			return newErrInvalidInput(
+				fmt.Sprintf("cannot decorate using function %v: %s decorated more than once", dn.dtype, k), nil)
+		}
+		seen[k] = struct{}{}
+	}
+	for _, k := range keys {
 		s.decorators[k] = dn
 	}
 
